@@ -37,7 +37,7 @@ theorem init_covers_prior_lapse (s : St) (nd : NodeRec) (hnd : nd ∈ s.nodes) (
 /-- what is marked down stays down until an agent reports it again: handlers of other nodes,
 further lapses, heartbeats, creations and watcher restarts never mark anything up -/
 theorem down_stable (s : St) (e : Evt) (id : Nat) (h : getStatus s id = some down)
-    (hrep : e ≠ .report id) : getStatus (step s e) id = some down := by
+    (hrep : ∀ st, e ≠ .report id st) : getStatus (step s e) id = some down := by
   cases e with
   | heartbeat n => simp only [step]; split <;> exact h
   | lapse n =>
@@ -46,32 +46,34 @@ theorem down_stable (s : St) (e : Evt) (id : Nat) (h : getStatus s id = some dow
     · exact dealMsg_keeps _ _ _ _ h
     · exact h
   | create i n => exact h
-  | report j =>
-    have : id ≠ j := fun e => hrep (by rw [e])
+  | report j st =>
+    have : id ≠ j := fun e => hrep st (by rw [e])
     simp only [step]; rw [getStatus_setStatus_other _ _ _ _ this]; exact h
   | startWatcher => exact initFold_keeps _ _ _ _ h
   | stopWatcher => exact h
+  | standby => exact h
+  | bypass n => exact h
 
 /-- the full statement for the init path WITHOUT the test-node guard … -/
 def PropC28_init_unguarded : Prop :=
   ∀ (s : St) (nd : NodeRec), nd ∈ s.nodes → s.hb.contains nd.name = false →
     ∀ w ∈ s.wls, w.node = nd.name → w.nameOk = true → getStatus (step s .startWatcher) w.id = some down
 
-def exTest : St := { nodes := [⟨"t1", true⟩], wls := [⟨1, "t1", true⟩], status := [(1, up)] }
+def exTest : St := { nodes := [{ name := "t1", test := true }], wls := [⟨1, "t1", true⟩], status := [(1, up)] }
 
 /-- … is false: a `Test` node without heartbeat is forced alive by `initNodeStatus` -/
 theorem test_node_guard_needed : ¬ PropC28_init_unguarded := by
   intro h
-  have := h exTest ⟨"t1", true⟩ (by decide) (by decide) ⟨1, "t1", true⟩ (by decide) rfl rfl
+  have := h exTest { name := "t1", test := true } (by decide) (by decide) ⟨1, "t1", true⟩ (by decide) rfl rfl
   revert this; decide
 
 /-- a lapse while NO watcher is active marks nothing (the part of "eventually" that depends on
 a watcher being active) -/
-example : getStatus (step { nodes := [⟨"n1", false⟩], hb := ["n1"], wls := [⟨1, "n1", true⟩], status := [(1, up)] } (.lapse "n1")) 1 = some up := by
+example : getStatus (step { nodes := [{ name := "n1" }], hb := ["n1"], wls := [⟨1, "n1", true⟩], status := [(1, up)] } (.lapse "n1")) 1 = some up := by
   decide
 
 /-! non-vacuity: an active watcher, a node with heartbeat and two workloads -/
-def exS : St := { nodes := [⟨"n1", false⟩, ⟨"n2", false⟩], hb := ["n1", "n2"], active := true,
+def exS : St := { nodes := [{ name := "n1" }, { name := "n2" }], hb := ["n1", "n2"], active := true,
                   wls := [⟨1, "n1", true⟩, ⟨2, "n1", true⟩, ⟨3, "n2", true⟩], status := [(1, up), (2, up), (3, up)] }
 example : exS.active = true ∧ exS.hb.contains "n1" = true ∧ nodeExists exS "n1" = true := by decide
 example : stillUp (step exS (.lapse "n1")) "n1" = [] ∧ getStatus (step exS (.lapse "n1")) 3 = some up := by decide
@@ -102,10 +104,12 @@ theorem obligations_reported_down (evs : List Evt) : ∀ (s : St) (ob : List Nat
     | heartbeat n => exact down_stable s _ j (h j hj) (by simp)
     | create k n => exact down_stable s _ j (h j hj) (by simp)
     | stopWatcher => exact down_stable s _ j (h j hj) (by simp)
-    | report k =>
+    | standby => exact down_stable s _ j (h j hj) (by simp)
+    | bypass n => exact down_stable s _ j (h j hj) (by simp)
+    | report k st =>
       have hj0 : j ∈ ob.filter (fun x => x != k) := hj
       have hj' : j ∈ ob ∧ j ≠ k := by simpa [List.mem_filter] using hj0
-      exact down_stable s _ j (h j hj'.1) (fun e' => hj'.2 (by cases e'; rfl))
+      exact down_stable s _ j (h j hj'.1) (fun st' e' => hj'.2 (by cases e'; rfl))
     | lapse n =>
       by_cases hc : (s.active && s.hb.contains n && nodeExists s n) = true
       · have hj0 : j ∈ (if (s.active && s.hb.contains n && nodeExists s n) = true then ob ++ (onNode s n).map (·.id) else ob) := hj
@@ -166,20 +170,42 @@ theorem run_nameOk (evs : List Evt) : ∀ (s : St), (∀ w ∈ s.wls, w.nameOk =
       rcases List.mem_cons.mp hw with e | e
       · rw [e]
       · exact h w e
-    | report k => exact h
+    | report k st => exact h
     | startWatcher => simp only [step, initNodeStatus]; rw [(initFold_frame _ _ _).2]; exact h
     | stopWatcher => exact h
+    | standby => exact h
+    | bypass n => exact h
 
 /-- NOT covered by the property as implemented: a workload created on a node AFTER its lapse was
 handled is not marked down (nothing re-examines the node until its next lapse or a watcher restart) -/
 theorem created_after_lapse_not_marked :
-    getStatus (run { nodes := [⟨"n1", false⟩], hb := ["n1"], active := true }
-      [.lapse "n1", .create 1 "n1", .report 1]) 1 = some up ∧
-    obligations [.lapse "n1", .create 1 "n1", .report 1] { nodes := [⟨"n1", false⟩], hb := ["n1"], active := true } [] = [] := by
+    getStatus (run { nodes := [{ name := "n1" }], hb := ["n1"], active := true }
+      [.lapse "n1", .create 1 "n1", .report 1 up]) 1 = some up ∧
+    obligations [.lapse "n1", .create 1 "n1", .report 1 up] { nodes := [{ name := "n1" }], hb := ["n1"], active := true } [] = [] := by
   decide
 
 /-- non-vacuity of the history theorem -/
-example : obligations [.heartbeat "n1", .create 1 "n1", .report 1, .create 2 "n1", .startWatcher, .lapse "n1"]
-    { nodes := [⟨"n1", false⟩] } [] = [2, 1] := by decide
+example : obligations [.heartbeat "n1", .create 1 "n1", .report 1 up, .create 2 "n1", .startWatcher, .lapse "n1"]
+    { nodes := [{ name := "n1" }] } [] = [2, 1] := by decide
+
+end Eru.Props.C28
+
+namespace Eru.Props.C28
+open Eru.Cluster2.ND
+
+/-- a BYPASSED (non-test) node is not exempt: its workloads are marked down by the scan of an activation -/
+example : getStatus (run { nodes := [{ name := "n1" }], hb := ["n1"], wls := [⟨1, "n1", true⟩], status := [(1, up)] }
+    [.bypass "n1", .lapse "n1", .startWatcher]) 1 = some down := by decide
+
+/-- whatever the agent reported last (running but unhealthy, …), the handler writes `down` -/
+example : getStatus (run { nodes := [{ name := "n1" }], hb := ["n1"], active := true, wls := [⟨1, "n1", true⟩] }
+    [.report 1 ⟨true, false⟩, .lapse "n1"]) 1 = some down := by decide
+
+/-- failover: the lapse happens while this watcher is standby (another instance holds the key);
+the scan of the LATER activation covers it — `startWatcher` is every activation -/
+example : obligations [.standby, .lapse "n1", .startWatcher]
+      { nodes := [{ name := "n1" }], hb := ["n1"], wls := [⟨1, "n1", true⟩], status := [(1, up)] } [] = [1] ∧
+    getStatus (run { nodes := [{ name := "n1" }], hb := ["n1"], wls := [⟨1, "n1", true⟩], status := [(1, up)] }
+      [.standby, .lapse "n1", .startWatcher]) 1 = some down := by decide
 
 end Eru.Props.C28
